@@ -33,6 +33,12 @@ theorem P_failAt (σ : List PS) (ctx : String) : P (failAt σ ctx) := by simp [P
 theorem P_popTo (σ : List PS) (op : Op) (h3 : op ≠ .error) : P (popTo σ op) := by
   cases σ <;> simp [P, popTo, goTo, h3]
 
+theorem P_pushTo (st : Step) (p : PS) (σ : List PS) (op : Op) (h1 : st ≠ .error) (h2 : st ≠ .endTop) (h3 : op ≠ .error) :
+    P (pushTo st p σ op) := by
+  unfold pushTo; split
+  · exact P_goTo _ _ _ h1 h2 h3
+  · exact P_failAt _ _
+
 theorem P_endValue (σ : List PS) (c : UInt8) : P (stateEndValue σ c) := by
   unfold stateEndValue
   split
@@ -56,7 +62,7 @@ theorem P_endValue (σ : List PS) (c : UInt8) : P (stateEndValue σ c) := by
 
 macro "ptac" : tactic => `(tactic| ((repeat' split) <;>
   first | exact P_goTo _ _ _ (by decide) (by decide) (by decide) | exact P_failAt _ _ | exact P_endValue _ _
-        | exact P_popTo _ _ (by decide)))
+        | exact P_popTo _ _ (by decide) | exact P_pushTo _ _ _ _ (by decide) (by decide) (by decide)))
 
 theorem P_beginValue (σ : List PS) (c : UInt8) : P (stateBeginValue σ c) := by unfold stateBeginValue; ptac
 theorem P_beginValueOrEmpty (σ : List PS) (c : UInt8) : P (stateBeginValueOrEmpty σ c) := by
